@@ -44,11 +44,13 @@ def run(ctx):
 
     # ---- R1: theorems of the property statement on the definitions -------
     if have("DescriptiveThm.tla"):
-        ctx.tlc("stat/DescriptiveThm.tla", "stat/DescriptiveThm.cfg", name="R1 metamorphic theorems n<=3",
-                subst=dict(ALPHA=a0, OFF=o0, MAXN=3, WVALS="{0,1,2}"), workers=4)
+        ctx.tlc("stat/DescriptiveThm.tla", "stat/DescriptiveThm.cfg", name="R1 theorems: univariate n<=3, bivariate n<=2, w in {0,1,2}",
+                subst=dict(ALPHA=a0, OFF=o0, MAXN=3, BMAXN=2, WVALS="{0,1,2}"), workers=4)
         if thorough:
-            ctx.tlc("stat/DescriptiveThm.tla", "stat/DescriptiveThm.cfg", name="R1 metamorphic theorems n<=4",
-                    subst=dict(ALPHA=a0, OFF=o0, MAXN=4, WVALS="{0,1,2}"), workers=4, timeout=1500)
+            ctx.tlc("stat/DescriptiveThm.tla", "stat/DescriptiveThm.cfg", name="R1 theorems: n<=3 (uni and bivariate), w in {0,1,2}",
+                    subst=dict(ALPHA=a0, OFF=o0, MAXN=3, BMAXN=3, WVALS="{0,1,2}"), workers=4, timeout=1500)
+            ctx.tlc("stat/DescriptiveThm.tla", "stat/DescriptiveThm.cfg", name="R1 theorems: univariate n<=4, second alphabet, w in {0,1,3}",
+                    subst=dict(ALPHA=a1, OFF=o1, MAXN=4, BMAXN=2, WVALS="{0,1,3}"), workers=4, timeout=1500)
 
     # ---- R2: generated cases replayed into gonum --------------------------
     plan = []   # (family, alpha, off, minn, maxn, wvals, pgrid, nshards)
@@ -115,8 +117,27 @@ def run(ctx):
         exhaustive=True)
 
 
-EXTRA_QUICK = []
-EXTRA_THOROUGH = []
+# (family, alphabet index 0|1, minn, maxn, wvals, pgrid, nshards)
+EXTRA_QUICK = [
+    ("bi", 0, 1, 2, "{0,1,2}", 8, 1),
+    ("bi", 0, 3, 3, "{1,2}", 8, 1),
+    ("mat", 0, 2, 3, "{1,2}", 8, 1),
+    ("roc", 0, 1, 3, "{1,2}", 8, 1),
+    ("sort", 0, 1, 5, "{1}", 8, 1),
+    ("chi", 0, 1, 3, "{1}", 8, 1),
+]
+EXTRA_THOROUGH = [
+    ("bi", 0, 1, 3, "{0,1,2}", 8, 1),
+    ("bi", 1, 1, 3, "{1,3}", 8, 1),
+    ("bi", 0, 4, 4, "{1}", 8, 4),
+    ("mat", 0, 2, 3, "{0,1,2}", 8, 1),
+    ("mat", 1, 2, 3, "{1,3}", 8, 1),
+    ("roc", 0, 1, 3, "{0,1,2}", 8, 1),
+    ("roc", 1, 1, 4, "{1,3}", 8, 2),
+    ("sort", 0, 1, 6, "{1}", 8, 1),
+    ("sort", 1, 1, 5, "{1}", 8, 1),
+    ("chi", 0, 1, 4, "{1}", 8, 1),
+]
 
 
 def replay(ctx, path):
